@@ -191,6 +191,15 @@ func c19run(c *fw.Ctx, idx int) {
 		var l jet.Loader = jet.NewOSFileSystemLoader(root)
 		if kind == "httpfs" {
 			l, _ = httpfs.NewLoader(http.Dir(root))
+			if idx%32 == 11 && swapLink == "" {
+				// http.Dir("") is the current directory (documented by net/http)
+				if wd, err := os.Getwd(); err == nil && os.Chdir(root) == nil {
+					defer os.Chdir(wd)
+					l, _ = httpfs.NewLoader(http.Dir(""))
+					hist = append(hist, c19op{Op: "Chdir(root)+http.Dir(\"\")"})
+					c.Count("http_dir_empty_string_roots", 1)
+				}
+			}
 		}
 		files := map[string]string{}
 		dirs := map[string]bool{"/": true}
@@ -487,6 +496,8 @@ func c19run(c *fw.Ctx, idx int) {
 			c.Count("nested_multi_stacks", 1)
 		}
 		ml := multi.NewLoader(members...)
+		// a sibling stack built from the very same slice, cleared and refilled later: the stack under test is unaffected
+		sibling := multi.NewLoader(members...)
 		order := func() []int {
 			var o []int
 			for _, e := range outerList {
@@ -523,6 +534,11 @@ func c19run(c *fw.Ctx, idx int) {
 				mems[li].Delete(cn)
 				delete(models[li], cn)
 			case 4:
+				if r.Intn(3) == 0 {
+					hist = append(hist, c19op{Op: "sibling.ClearLoaders+AddLoaders", Loader: k - 1})
+					sibling.ClearLoaders()
+					sibling.AddLoaders(ls[k-1], ls[0])
+				}
 				if active < k {
 					if inner != nil && r.Intn(2) == 0 {
 						hist = append(hist, c19op{Op: "AddLoaders(nested)", Loader: active})
